@@ -722,20 +722,23 @@ theorem attoRemainder_no_panic (o : Option Nat) (f : Option Bytes) : (attoRemain
     split
     · rfl
     · rename_i hdec
+      -- the limit on the fraction as written (C16's repair, flag `fracLenCheckedUntrimmed`): an error either way
       split
       · rfl
-      · cases hp : Amount.uintFromStr (Amount.trimEnd0 (f.getD [])) with
-        | none => rfl
-        | some pr =>
-          simp only
-          split
-          · rfl
-          · rename_i hl
-            have hdec' : Amount.isDecimal (f.getD []) = true := by simpa using hdec
-            obtain ⟨h1, h2⟩ := atto_remainder_scale_in_range (f.getD []) pr hdec' hp hl
-            obtain ⟨r, hr⟩ := attoScale_ok pr _ h1 h2
-            rw [hr]
-            exact attoSum_no_panic conv r
+      · split
+        · rfl
+        · cases hp : Amount.uintFromStr (Amount.trimEnd0 (f.getD [])) with
+          | none => rfl
+          | some pr =>
+            simp only
+            split
+            · rfl
+            · rename_i hl
+              have hdec' : Amount.isDecimal (f.getD []) = true := by simpa using hdec
+              obtain ⟨h1, h2⟩ := atto_remainder_scale_in_range (f.getD []) pr hdec' hp hl
+              obtain ⟨r, hr⟩ := attoScale_ok pr _ h1 h2
+              rw [hr]
+              exact attoSum_no_panic conv r
 
 /-- `AttoTokens::from_str`: a value or an error for every string.  The two overflow-prone steps that are checked in
 the source return `ExcessiveValue`; the unchecked `parsed_remainder * 10.pow(..)` (wrapping on `ruint` integers) is
